@@ -399,7 +399,14 @@ C07(pre, e, post, acc, line) ==
             /\ Chk("C07", "share_value_never_negative", line, ~BIsNeg(q.asv), [bank |-> bn])
             /\ Chk("C07", "insurance_pays_first_up_to_its_balance", line,
                    \* whatever insurance could cover was taken from the insurance vault (within one token of rounding up)
-                   IF feeMint THEN RGe(RAdd(liqIn, ROne), RMin(bad, liqIn)) /\ RLe(insOut, insPre)
+                   \* (transfer-fee mint: what the whole insurance vault could deliver net of the fee in force - basis points,
+                   \* capped at the mint's maximum fee - is what "as far as it reaches" means; the liquidity vault must receive
+                   \* that much of the bad debt, up to the token the handler rounds by)
+                   IF feeMint THEN LET m == pre.mints[b.mint]
+                                       insAmt == TokAmt(pre, b.vault_ins)
+                                       feeAll == BMin(m.max_fee, BFloorDiv(BAdd(BMul(insAmt, BOfInt(m.fee_bps)), BOfInt(9999)), BOfInt(10000)))
+                                       reach == ROfBig(BSub(insAmt, feeAll))
+                                   IN RGe(RAdd(liqIn, ROne), RMin(bad, reach)) /\ RLe(insOut, insPre)
                    ELSE RGe(RAdd(insOut, tol), covered) /\ RLe(insOut, RAdd(covered, RAdd(ROne, tol))) /\ liqIn = insOut,
                    [bank |-> bn, ins_out |-> insOut[1], covered_num |-> covered[1], covered_den |-> covered[2]])
             \* depositors (one common share value, shares untouched) lose exactly the uncovered amount:
